@@ -867,12 +867,19 @@ Qed.
 (* ------------------------------------------------------------------ *)
 (* 3. hup: no campaign while a committed membership change is unapplied *)
 
-(* the window hup scans: from the pending snapshot (if any) or applied + 1, to committed *)
-Definition hup_low (r : raft) : N :=
+(* the lower end of the window hup scans: the pending snapshot's index + 1 if there is one,
+   otherwise max(applied + 1, first_index) -- everything below the first index is covered
+   by the stabilized snapshot (fix a8252b4); the upper end is committed + 1 *)
+Definition hup_low (r : raft) : Res N :=
   match u_maybe_first_index (unst (r_log r)) with
-  | Some i => i
-  | None => applied (r_log r) + 1
+  | Some i => Ok i
+  | None => fi <- first_index (r_log r) ;; Ok (N.max (applied (r_log r) + 1) fi)
   end.
+
+(* hup's scan of its window answered b *)
+Definition hup_scan (r : raft) (b : bool) : Prop :=
+  exists low, hup_low r = Ok low /\
+    has_unapplied_conf_changes r low (committed (r_log r) + 1) = Ok b.
 
 Definition hup_campaign (r : raft) (transfer : bool) : Res raft :=
   if transfer then campaign_real true r
@@ -882,37 +889,57 @@ Definition hup_campaign (r : raft) (transfer : bool) : Res raft :=
 Theorem hup_spec r tl r' :
   hup r tl = Ok r' ->
   (is_leader r = true /\ r' = r) \/
-  (is_leader r = false /\
-   has_unapplied_conf_changes r (hup_low r) (committed (r_log r) + 1) = Ok true /\ r' = r) \/
-  (is_leader r = false /\
-   has_unapplied_conf_changes r (hup_low r) (committed (r_log r) + 1) = Ok false /\
-   hup_campaign r tl = Ok r').
+  (is_leader r = false /\ hup_scan r true /\ r' = r) \/
+  (is_leader r = false /\ hup_scan r false /\ hup_campaign r tl = Ok r').
 Proof.
   unfold hup. fold (hup_low r). intros H.
   destruct (is_leader r). { inversion H; auto. }
+  apply bind_ok in H. destruct H as (low & Hlow & H).
   inv_bind H. destruct x.
-  - inversion H; subst. right; left. auto.
-  - right; right. auto.
+  - inversion H; subst. right; left. split; [reflexivity|]. split; [|reflexivity].
+    exists low. auto.
+  - right; right. split; [reflexivity|]. split; [|exact H]. exists low. auto.
 Qed.
 
-Theorem hup_blocked r tl :
-  has_unapplied_conf_changes r (hup_low r) (committed (r_log r) + 1) = Ok true ->
-  hup r tl = Ok r.
+Theorem hup_blocked r tl : hup_scan r true -> hup r tl = Ok r.
 Proof.
-  intros Hb. unfold hup. fold (hup_low r). destruct (is_leader r); [reflexivity|].
-  rewrite Hb. reflexivity.
+  intros (low & Hlow & Hb). unfold hup. fold (hup_low r). destruct (is_leader r); [reflexivity|].
+  rewrite Hlow. cbn [bind]. rewrite Hb. reflexivity.
 Qed.
 
 (* any change made by hup (in particular becoming candidate, pre-candidate or leader, or
    raising the term) implies the scan found no unapplied membership change *)
 Theorem hup_guard r tl r' :
   hup r tl = Ok r' -> r' <> r ->
-  is_leader r = false /\
-  has_unapplied_conf_changes r (hup_low r) (committed (r_log r) + 1) = Ok false /\
-  hup_campaign r tl = Ok r'.
+  is_leader r = false /\ hup_scan r false /\ hup_campaign r tl = Ok r'.
 Proof.
   intros H Hne. apply hup_spec in H. destruct H as [[_ E]|[(_ & _ & E)|H]]; try contradiction.
   exact H.
+Qed.
+
+(* regression guard for a8252b4: without a pending (unstable) snapshot the window starts
+   at or above the log's first index, so the scan never reads compacted entries, and at or
+   above applied + 1 *)
+Theorem hup_low_not_compacted r low :
+  u_maybe_first_index (unst (r_log r)) = None -> hup_low r = Ok low ->
+  exists fi, first_index (r_log r) = Ok fi /\ fi <= low /\ applied (r_log r) + 1 <= low.
+Proof.
+  intros Hn H. unfold hup_low in H. rewrite Hn in H. inv_bind H. inversion H; subst.
+  exists x. split; [exact Hx|]. lia.
+Qed.
+
+Theorem hup_window_not_compacted r tl r' :
+  hup r tl = Ok r' -> is_leader r = false ->
+  u_maybe_first_index (unst (r_log r)) = None ->
+  exists low fi b,
+    hup_low r = Ok low /\ first_index (r_log r) = Ok fi /\ fi <= low /\
+    applied (r_log r) + 1 <= low /\
+    has_unapplied_conf_changes r low (committed (r_log r) + 1) = Ok b.
+Proof.
+  intros H Hl Hn. apply hup_spec in H.
+  destruct H as [[E _]|[(_ & (low & A & B) & _)|(_ & (low & A & B) & _)]]; [congruence| |];
+    destruct (hup_low_not_compacted _ _ Hn A) as (fi & F1 & F2 & F3);
+    exists low, fi; eexists; repeat split; eassumption.
 Qed.
 
 (* what scan_conf reads: consecutive non-empty pages from lo up to lo' *)
@@ -2504,7 +2531,7 @@ Theorem step_campaign_guard r m r' c :
   (r_state r = PreCandidate /\ r_state r' = Candidate /\ m_type m = MsgRequestPreVoteResponse) \/
   (* hup campaigned, after its scan answered false *)
   (exists r1 tl, prologue r m r1 /\ is_leader r1 = false /\
-     has_unapplied_conf_changes r1 (hup_low r1) (committed (r_log r1) + 1) = Ok false /\
+     hup_scan r1 false /\
      hup r1 tl = Ok r' /\ (m_type m = MsgHup \/ m_type m = MsgTimeoutNow)).
 Proof.
   intros H Hc. unfold step in H. inv_bind H.
@@ -2537,7 +2564,7 @@ Proof.
      st r r' \/
      (r_state r = PreCandidate /\ r_state r' = Candidate /\ m_type m = MsgRequestPreVoteResponse) \/
      (exists r1 tl, prologue r m r1 /\ is_leader r1 = false /\
-        has_unapplied_conf_changes r1 (hup_low r1) (committed (r_log r1) + 1) = Ok false /\
+        hup_scan r1 false /\
         hup r1 tl = Ok r' /\ (m_type m = MsgHup \/ m_type m = MsgTimeoutNow))).
   { intros tl Hh Hty. pose proof (hup_spec _ _ _ Hh) as [[_ ->]|[(_ & _ & ->)|(Hl & Hsc & _)]].
     - left. apply Hst1, st_refl.
@@ -2562,7 +2589,7 @@ Proof.
                st r r' \/
      (r_state r = PreCandidate /\ r_state r' = Candidate /\ m_type m = MsgRequestPreVoteResponse) \/
      (exists r1 tl, prologue r m r1 /\ is_leader r1 = false /\
-        has_unapplied_conf_changes r1 (hup_low r1) (committed (r_log r1) + 1) = Ok false /\
+        hup_scan r1 false /\
         hup r1 tl = Ok r' /\ (m_type m = MsgHup \/ m_type m = MsgTimeoutNow))).
     { intros rr Hs E. inversion E; subst. left. apply Hst1. exact Hs. }
     destruct (m_type m =? MsgPropose).
@@ -2925,6 +2952,16 @@ Definition s_vresp : msg :=
 (* a snapshot in whose configuration node 1 is a learner *)
 Definition s_snap : snapshot := mkSnap 5 2 (mkCS [2; 3; 4] [1] [] [] false).
 
+(* a follower whose storage was compacted by an asynchronously applied snapshot at index 5
+   (stabilized: nothing unstable) while the library's applied index is still 2:
+   applied + 1 = 3 < first_index = 6; entry 6 is committed *)
+Definition s_compacted : raft :=
+  s_raft Follower
+    (mkLog (mkMem (mkHS 2 1 6) (mkCS [1; 2; 3] [] [] [] false) [e_norm 2 6] 5 2
+                  false false None)
+           (mkUn None [] 0 7) 6 6 2 0)
+    c3 0 true 2.
+
 End C09Samples.
 
 (* statements pinned in Props/C09.v whose proofs are more than [exact] *)
@@ -2952,9 +2989,6 @@ Proof. intros n. unfold RInv, RB, LInv, LBP. split; reflexivity. Qed.
 Lemma C09_hup_guard_pin :
   forall r tl r',
   hup r tl = Ok r' -> r' <> r ->
-  is_leader r = false /\
-  has_unapplied_conf_changes r
-    (match u_maybe_first_index (unst (r_log r)) with Some i => i | None => applied (r_log r) + 1 end)
-    (committed (r_log r) + 1) = Ok false.
+  is_leader r = false /\ hup_scan r false.
 Proof. intros r tl r' H Hne. destruct (hup_guard r tl r' H Hne) as (A & B & _). split; assumption. Qed.
 
